@@ -39,6 +39,7 @@ fn main() {
     match sub.as_str() {
         "c07" => vharness::c07::run(seed, n, thorough, &corpus, &dir),
         "codec" => vharness::codec::run(seed, n, thorough, &corpus, &dir),
+        "frame" => vharness::frame::run(seed, n, thorough, &corpus, &dir),
         "c08" => vharness::c08::run(seed, n, thorough, &corpus, &dir),
         "c08w" => vharness::c08::run_wake(seed, n, &dir),
         "typed" => vharness::typed::run(seed, n, thorough, &corpus, &dir),
